@@ -38,6 +38,8 @@ pub enum Edit {
     SpareWrite(usize),
     /// Another kernel read into the buffer, delivering n bytes.
     ReadMore(usize),
+    /// The same through another operation: 0 recv, 1 recv_from, 2 read_vectored([buf]), 3 recv_vectored([buf]).
+    ReadMoreVia(u8, usize),
     /// Overwrite the content through as_mut_slice.
     Scribble,
 }
@@ -288,21 +290,42 @@ impl C15World {
                 unsafe { b.set_len(new_len) };
                 self.model.extend_from_slice(&data);
             }
-            Edit::ReadMore(n) => {
+            Edit::ReadMore(_) | Edit::ReadMoreVia(..) => {
+                let (via, n) = match e {
+                    Edit::ReadMore(n) => (255u8, n),
+                    Edit::ReadMoreVia(v, n) => (v, n),
+                    _ => unreachable!(),
+                };
                 let spare = cap - self.model.len();
                 let n = n.min(spare);
                 let fd = self.fd.unwrap();
-                let mut fut = Box::pin(talloc::track(|| fd.read(b)));
+                use std::future::Future;
+                use std::pin::Pin;
+                type Fut = Pin<Box<dyn Future<Output = std::io::Result<ReadBuf>>>>;
+                let mut fut: Fut = talloc::track(|| -> Fut {
+                    match via {
+                        0 => Box::pin(fd.recv(b)),
+                        1 => Box::pin(async move { fd.recv_from::<_, std::net::SocketAddr>(b).await.map(|(b, _, _)| b) }),
+                        2 => Box::pin(async move { fd.read_vectored([b]).await.map(|[b]| b) }),
+                        3 => Box::pin(async move { fd.recv_vectored([b]).await.map(|([b], _)| b) }),
+                        _ => Box::pin(fd.read(b)),
+                    }
+                });
                 let w = HWaker::new(9);
                 let mut cx = Context::from_waker(&w.waker);
-                use std::future::Future;
                 let first = talloc::track(|| fut.as_mut().poll(&mut cx));
                 assert!(first.is_pending());
                 self.enter();
                 let s = simk::with(|k| *k.inflight().last().unwrap());
-                let (sqe, pool) = simk::with(|k| (k.req(s).sqe, k.req(s).pool));
-                if pool || sqe.addr() as usize != self.slot_addr + self.model.len() || sqe.len() as usize != spare {
-                    self.bad("reread-target", format!("a read into the owned buffer targets {:#x}+{} (buffer select: {pool}); expected {:#x}+{spare}", sqe.addr(), sqe.len(), self.slot_addr + self.model.len()));
+                // Where does the kernel write? Exactly the spare part of this buffer's slot.
+                let (targets, pool, desc) = simk::with(|k| {
+                    let r = k.req(s);
+                    let t: Vec<(usize, usize)> = r.foot.iter().filter(|f| f.write && matches!(f.what, "buffer" | "iovec-target") && f.len > 0).map(|f| (f.addr, f.len)).collect();
+                    (t, r.pool, r.sqe.describe())
+                });
+                let want: Vec<(usize, usize)> = if spare > 0 { vec![(self.slot_addr + self.model.len(), spare)] } else { vec![] };
+                if pool || targets != want {
+                    self.bad("reread-target", format!("a read (variant {via}) into the owned buffer lets the kernel write {targets:x?} (buffer select: {pool}); expected {want:x?} — {desc}"));
                 }
                 simk::with(|k| k.complete(s, Out::Res(n as i32)));
                 let data: Vec<u8> = simk::with(|k| k.req(s).outs.last().unwrap().data.clone());
@@ -350,6 +373,9 @@ impl C15World {
         for n in [0, 1, cap] {
             v.push(Edit::SpareWrite(n));
             v.push(Edit::ReadMore(n));
+        }
+        for via in 0..4u8 {
+            v.push(Edit::ReadMoreVia(via, 1));
         }
         v.push(Edit::Scribble);
         // Every range form.
